@@ -219,7 +219,7 @@ func usableTCP(h dns.HTTPS) bool {
 func TestC19(t *testing.T) {
 	rec := ev.Get("C19")
 	rec.Rule("per case a loopback deployment: 2..4 origins (distinct host names incl. IPv6 literals, several hosts on one listener, default and explicit ports, http and https URLs), each answered by a real crypto/tls HTTP server that issues a certificate for the requested SNI from the test CA and supports ECH, HTTPS RRsets drawn from none / service records with ALPN sets over {h3,h2,http/1.1,other}, no-default-alpn, distinct priorities, port=, ech=, targets / an alias to another name; Transport with or without a recording HTTP/3 round-tripper that dials through ech.Dialer with the request context; some targets marked down; 3..10 GETs across the origins with connection reuse. Oracle: plaintext refusal (http without HTTPS records fails, nothing reaches a server), http upgraded when HTTPS records exist, every request seen by a server carries the original Host, arrives with SNI = URL host on a connection dialed for that host and port, h3 chosen iff the reference decision over the record set says so and then exactly the h3-capable targets are offered (otherwise the h2/http1.1-compatible ones, in order), resp.Request is the caller's request and RoundTrip leaves that request (method, URL, Host, headers) unmodified. distinct = (origin shapes, record sets, request order); non-trivial = 2+ origins share an address or a record offers h3")
-	rec.Mandatory("host_override", "same_host_other_port", "http_upgrade", "plaintext_refused", "h3_chosen", "h3_not_chosen_with_h3_record", "same_address_different_hosts", "ipv6_literal", "conn_reused", "explicit_port", "alias", "target_down", "same_host_port80_vs_default")
+	rec.Mandatory("host_override", "same_host_other_port", "http_upgrade", "plaintext_refused", "h3_chosen", "h3_not_chosen_with_h3_record", "same_address_different_hosts", "ipv6_literal", "conn_reused", "explicit_port", "alias", "target_down", "same_host_port80_vs_default", "dialer_resolver_set")
 	rapid.Check(t, func(t *rapid.T) {
 		S := c19Start(t)
 		var cl []string
@@ -356,6 +356,10 @@ func TestC19(t *testing.T) {
 		if withH3 {
 			tr.HTTP3Transport = h3
 		}
+		dialerResolverSet := rapid.Bool().Draw(t, "dialer_resolver_set")
+		if dialerResolverSet {
+			cl = append(cl, "dialer_resolver_set")
+		}
 		tr.Dialer.MaxConcurrency = 1
 		tr.Dialer.ConcurrencyDelay = time.Millisecond
 		tr.Dialer.Timeout = 5 * time.Second
@@ -403,6 +407,10 @@ func TestC19(t *testing.T) {
 				t.Fatalf("harness: %v", err)
 			}
 			tr.Resolver = r
+			if dialerResolverSet {
+				// documented: "When Dialer is used by Transport, this value is ignored"
+				tr.Dialer.Resolver = r
+			}
 			rtc := &rtCheck{inner: tr}
 			client := &http.Client{Transport: rtc, Timeout: 20 * time.Second}
 			defer tr.HTTPTransport.CloseIdleConnections()
